@@ -1241,7 +1241,10 @@ def pair_stream(ctx: Ctx, book: Book) -> None:
     do not share an index", on pairs that differ in exactly one field (or in none)."""
     from harness import roundtriprig as R
 
-    IP_CLASSES = ('INET', 'Label', 'IPVPN')
+    # "routes that differ in family, path identifier, prefix or route distinguisher never share an index":
+    # the arguments that are one of those four things (the others - labels, ESI, TEID, QFI, endpoint, gateway,
+    # source AS - may or may not be part of an index; only `equal ⇒ same index and hash` is asked of them)
+    KEY_FIELDS = {'rd', 'rd_', 'path_info', 'cidr', 'prefix_ip', 'prefix_ip_len', 'iplen', 'destination', 'afi', 'data'}
     for name, made in pair_groups(ctx.rng):
         objs = []
         for field, tag, x in made:
@@ -1288,10 +1291,10 @@ def pair_stream(ctx: Ctx, book: Book) -> None:
                     book.add('index-pair', cls, 'equal-but-different-index', field, wa or b'', what + f' index {hx(ia)} | {hx(ib)}', replay)
                 if ta.split(':')[0] == tb.split(':')[0] and not eq:
                     book.add('index-pair', cls, 'same-value-not-equal', field, wa or b'', what, replay)
-                if wa is not None and wb is not None and wa != wb and ia == ib and not (cls in IP_CLASSES and field == 'labels'):
-                    # the label stack of a labelled / VPN route is not in the property's list (family, path
-                    # identifier, prefix, RD): it is the same route with another binding
-                    book.add('index-pair', cls, 'differ-on-the-wire-same-index', field, wa, what + f' index {hx(ia)}', replay)
+                if wa is not None and wb is not None and wa != wb and ia == ib and field not in KEY_FIELDS:
+                    ctx.count(f'note:wire-differs-same-index:{cls}:{field}')
+                if wa is not None and wb is not None and wa != wb and ia == ib and field in KEY_FIELDS:
+                    book.add('index-pair', cls, 'differ-in-family/path-id/prefix/rd-same-index', field, wa, what + f' index {hx(ia)}', replay)
                 ctx.nontrivial(['pair', name, ta, tb, hx(wa or b''), hx(wb or b'')])
                 if eq and wa != wb:
                     ctx.sample({'stream': 'pair', 'group': name, 'a': str(a)[:70], 'b': str(b)[:70], 'field': field, '==': eq, 'same_hash': ha == hb, 'same_index': ia == ib}, cap=20)
